@@ -6,13 +6,15 @@ CONSTANTS
   KeepStatus = FALSE
   RecheckAtApply = TRUE
   RecheckISR = TRUE
+  KeepOnFail = FALSE
   CountAll = FALSE
   InitISRs = {{"r1", "r2"}, {"r1", "r2", "r3"}, {"r1", "r2", "r3", "r4"}}
   L0 = "r1"
   PairSels = {"cur", "sl", "prev"}
   MaxOps = 4
+  Faults = TRUE
   MaxPend = 0
-INVARIANTS TypeOK C07_LeaderInISR StatusLive WitnessesAreGood
+INVARIANTS TypeOK C07_LeaderInISR StatusLive WitnessesAreGood PersistedISR
 PROPERTIES StepsOK
 VIEW MCView
 CHECK_DEADLOCK FALSE
